@@ -12,6 +12,13 @@ import (
 	"verifharness/recdrv"
 )
 
+// Audit rows are written by User.BeforeCreate through the handle the hook receives when the
+// recorder asks for it: whatever a hook writes is part of the operation (C05).
+type Audit struct {
+	ID   int64
+	Note string
+}
+
 type Company struct {
 	ID   int64
 	Name string
@@ -69,8 +76,8 @@ type SoftUser struct {
 	DeletedAt gorm.DeletedAt
 }
 
-var AllModels = []interface{}{&Company{}, &Profile{}, &Toy{}, &Pet{}, &Lang{}, &User{}, &SoftUser{}, &SoftPet{}}
-var AllTables = []string{"companies", "profiles", "toys", "pets", "langs", "users", "user_langs", "soft_users", "soft_pets"}
+var AllModels = []interface{}{&Audit{}, &Company{}, &Profile{}, &Toy{}, &Pet{}, &Lang{}, &User{}, &SoftUser{}, &SoftPet{}}
+var AllTables = []string{"audits", "companies", "profiles", "toys", "pets", "langs", "users", "user_langs", "soft_users", "soft_pets"}
 
 // HookEv is one hook invocation.
 type HookEv struct {
@@ -95,6 +102,7 @@ type Recorder struct {
 	Count   int
 	Probe   bool
 	Mutate  bool // before-hooks set the Tag column (C13: values set by a before-hook are stored)
+	Audit   bool // User.BeforeCreate / BeforeUpdate write an audit row through the hook's handle
 	OnEvent func(HookEv)
 }
 
@@ -136,6 +144,11 @@ func (u *User) BeforeSave(tx *gorm.DB) error { return hook(tx, "BeforeSave", "Us
 func (u *User) BeforeCreate(tx *gorm.DB) error {
 	if mutate() {
 		u.Tag = "bc:" + u.Name
+	}
+	if Cur != nil && Cur.Audit {
+		if err := tx.Exec("INSERT INTO audits(note) VALUES (?)", "create "+u.Name).Error; err != nil {
+			return err
+		}
 	}
 	return hook(tx, "BeforeCreate", "User", u.Name)
 }
